@@ -15,6 +15,19 @@ oligo-melting-temperature reference page the source links), typed here per duple
 PNAS 1998 table the source comment cites lists AA/TT as −7.9 / −22.2 and splits initiation by terminal
 pair; the code uses the later set throughout, and so does this spec.  What the spec adds over the
 code's table is the strand symmetry: the 16 ordered pairs must collapse to these ten duplex steps.
+
+Which terminal rule.  The property statement names "the initiation, terminal-A/T, self-complementarity
+and salt terms" without saying to which duplex end(s) the terminal-A/T term applies.  The parameter
+set above, as published, charges it once per duplex END closed by an A·T pair, i.e. also when the 5'
+base is A or T (0, 1 or 2 times per duplex).  The code applies it at most once, to the 3' end only
+(`sequence[len-1] == 'A' || == 'T'`; its comment: "penalty if 3' nucleotides are A or T"), and the
+property's anchors point at exactly that code.  `endsInAT` below therefore ADOPTS THE CODE'S 3'-ONLY
+RULE: on this point the spec is a restatement of the implementation, not independent evidence; the
+theorem `terminal_penalty_iff_last_AT` establishes only that the model's string test coincides with the
+spec's notion of "last base".  A repair of the code to the two-ended rule would change observable
+results and be reported by this check as a violation of the spec as written; the spec would then have
+to be re-decided by a human.  (Recorded as an observation, not as a defect: the property text does
+not fix the rule.)
 -/
 namespace PolyVerif.Spec.NN
 open PolyVerif PolyVerif.Spec
